@@ -2,7 +2,6 @@ package checks
 
 import (
 	"fmt"
-	"os"
 	"path/filepath"
 	"regexp"
 	"sort"
@@ -125,6 +124,10 @@ func (b *c09Base) clone() *c09Base {
 		np.Aux[k] = v
 	}
 	np.Dirs = append([]string(nil), b.proj.Dirs...)
+	np.Links = map[string]string{}
+	for k, v := range b.proj.Links {
+		np.Links[k] = v
+	}
 	n.proj = &np
 	n.expect = map[string][]string{}
 	for k, v := range b.expect {
@@ -278,7 +281,7 @@ func c09Faults() []c09Fault {
 			// a recursive package with a sub-package, so the expression is consulted
 			b.proj.Pkgs = append(b.proj.Pkgs, world.Pkg{Dir: "rec", Name: "rec", Files: []world.SrcFile{{Name: "rec.go", Ifaces: []world.Iface{{Name: "RecA", Methods: []int{7}}}}}},
 				world.Pkg{Dir: "rec/sub", Name: "sub", Files: []world.SrcFile{{Name: "sub.go", Ifaces: []world.Iface{{Name: "RecB", Methods: []int{8}}}}}})
-			b.proj.Config.Sub("packages").Sub(c09Mod + "/rec").Sub("config").Set("all", true).Set("recursive", true)
+			b.proj.Config.Sub("packages").Sub(c09Mod+"/rec").Sub("config").Set("all", true).Set("recursive", true)
 		}},
 		{Class: "missing-interface", Variant: "typo", Levels: []string{""}, Apply: func(b *c09Base, _ string, _ *simrt.Plan) {
 			b.proj.Config.Sub("packages").Sub(b.tpath()).Sub("interfaces").Set("NoSuchIface", world.NewY())
@@ -319,8 +322,24 @@ func c09Faults() []c09Fault {
 			q.Files[0].Extra += "\nfunc localOnly() { type OnlyLocal interface{ M() }; var _ OnlyLocal }\n"
 			b.proj.Config.Sub("packages").Sub(b.tpath()).Sub("interfaces").Set("OnlyLocal", world.NewY())
 		}},
+		// "generated and written": the write itself fails
+		{Class: "write-failure", Variant: "no-space-left-on-device", Levels: []string{""}, Apply: func(b *c09Base, _ string, _ *simrt.Plan) {
+			// the output path exists (overwriting is allowed) and its device is full: open
+			// succeeds, every write returns ENOSPC
+			b.proj.Links[c09OutFile(b.tpkg().Dir)] = "/dev/full"
+		}},
+		{Class: "write-failure", Variant: "output-path-is-a-directory", Levels: []string{""}, Apply: func(b *c09Base, _ string, _ *simrt.Plan) {
+			b.proj.Aux[c09OutFile(b.tpkg().Dir)+"/keep.txt"] = "a directory occupies the output path\n"
+		}},
+		{Class: "write-failure", Variant: "ancestor-of-output-dir-is-a-file", Levels: []string{""}, Apply: func(b *c09Base, _ string, _ *simrt.Plan) {
+			b.proj.Aux["mocks/example.com"] = "a file where a directory is needed\n"
+		}},
+		{Class: "write-failure", Variant: "existing-file-and-no-force-file-write", Levels: []string{""}, Apply: func(b *c09Base, _ string, _ *simrt.Plan) {
+			b.proj.Config.Set("force-file-write", false)
+			b.proj.Aux[c09OutFile(b.tpkg().Dir)] = "package mocks\n\n// written by somebody else\n"
+		}},
 		{Class: "load-error", Variant: "absent-package", Levels: []string{""}, Apply: func(b *c09Base, _ string, _ *simrt.Plan) {
-			b.proj.Config.Sub("packages").Sub(c09Mod + "/nosuchpkg").Sub("config").Set("all", true)
+			b.proj.Config.Sub("packages").Sub(c09Mod+"/nosuchpkg").Sub("config").Set("all", true)
 		}},
 		{Class: "load-error", Variant: "syntax-error", Levels: []string{""}, Apply: func(b *c09Base, _ string, _ *simrt.Plan) {
 			b.tpkg().Files[0].Extra += "\nfunc broken( {\n"
@@ -352,7 +371,7 @@ func c09Faults() []c09Fault {
 		}},
 		{Class: "load-error", Variant: "all-files-excluded-by-build-constraint", Levels: []string{""}, Apply: func(b *c09Base, _ string, _ *simrt.Plan) {
 			b.proj.Pkgs = append(b.proj.Pkgs, world.Pkg{Dir: "excluded", Name: "excluded", Files: []world.SrcFile{{Name: "only.go", BuildTag: "neverset", Ifaces: []world.Iface{{Name: "Hidden", Methods: []int{7}}}}}})
-			b.proj.Config.Sub("packages").Sub(c09Mod + "/excluded").Sub("config").Set("all", true)
+			b.proj.Config.Sub("packages").Sub(c09Mod+"/excluded").Sub("config").Set("all", true)
 		}},
 		{Class: "missing-interface", Variant: "declared-only-in-test-file", Levels: []string{""}, Apply: func(b *c09Base, _ string, _ *simrt.Plan) {
 			q := b.tpkg()
@@ -424,7 +443,7 @@ func c09Faults() []c09Fault {
 			for i, q := range b.proj.Pkgs {
 				if i != b.target {
 					b.proj.Pkgs[i].Files[0].Extra += "\nfunc hasLocal() { type LocalOnly interface{ M() }; var _ LocalOnly }\n"
-					b.proj.Config.Sub("packages").Sub(c09Mod + "/" + q.Dir).Sub("config").Set("all", true)
+					b.proj.Config.Sub("packages").Sub(c09Mod+"/"+q.Dir).Sub("config").Set("all", true)
 					return
 				}
 			}
@@ -439,7 +458,7 @@ func c09Faults() []c09Fault {
 		}},
 		{Class: "valid", Variant: "package-with-only-doc-go", Apply: func(b *c09Base, _ string, _ *simrt.Plan) {
 			b.proj.Pkgs = append(b.proj.Pkgs, world.Pkg{Dir: "docs", Name: "docs", Files: []world.SrcFile{{Name: "doc.go", Extra: "// Package docs has no declarations.\n"}}})
-			b.proj.Config.Sub("packages").Sub(c09Mod + "/docs").Sub("config").Set("all", true)
+			b.proj.Config.Sub("packages").Sub(c09Mod+"/docs").Sub("config").Set("all", true)
 		}},
 		{Class: "valid", Variant: "external-test-package-present", Apply: func(b *c09Base, _ string, _ *simrt.Plan) {
 			q := b.tpkg()
@@ -485,7 +504,7 @@ func c09Faults() []c09Fault {
 			for i, q := range b.proj.Pkgs {
 				if i != b.target {
 					b.proj.Pkgs[i].Files[0].Extra += "\ntype Boxed[T any] interface{ Unbox() T }\n\ntype IntBox = Boxed[int]\n\ntype StrBox Boxed[string]\n\ntype Plain = interface{ P() }\n\ntype AliasOfNamed = Thing\n"
-					b.proj.Config.Sub("packages").Sub(c09Mod + "/" + q.Dir).Sub("config").Set("all", true)
+					b.proj.Config.Sub("packages").Sub(c09Mod+"/"+q.Dir).Sub("config").Set("all", true)
 					return
 				}
 			}
@@ -734,8 +753,8 @@ func c09Corrupt(t world.Tree, kind string, r *core.Rng) world.Tree {
 
 type c09Spec struct {
 	corrupt string
-	world  int
-	faults []struct {
+	world   int
+	faults  []struct {
 		f  int
 		lv string
 	}
@@ -795,7 +814,7 @@ func missingMocks(root string, expect map[string][]string) []string {
 		if len(expect[f]) == 0 {
 			continue
 		}
-		b, err := os.ReadFile(filepath.Join(root, f))
+		b, err := world.ReadRegular(filepath.Join(root, f))
 		if err != nil {
 			miss = append(miss, f+" (file absent)")
 			continue
@@ -958,7 +977,7 @@ func RunC09(c *core.Ctx) int {
 	c.PrepareRepo(true)
 	faults := c09Faults()
 	nWorlds, nPairs := 1, 40
-	budget := 170 * time.Second
+	budget := 20 * time.Minute // quick: the case count is the contract, the clock only a watchdog
 	policies := []string{"asc", "desc"}
 	if c.Tier == "thorough" {
 		nWorlds, nPairs = 8, 400
@@ -1065,7 +1084,7 @@ func RunC09(c *core.Ctx) int {
 	sort.Strings(cl)
 	rep := c.InstrReport()
 	cov := map[string]any{
-		"rule": "one evaluation = one child run of the instrumented mockery on (baseline world, injected fault(s) at one configuration level, map-iteration policy); the single-fault matrix (class × variant × every level where the setting is consulted × policy) is enumerated completely per baseline world, pairs of different classes are seeded; non-trivial = the world has ≥2 output files; distinct = hash(fault labels, order-decision vector, tree digest)",
+		"rule":                 "one evaluation = one child run of the instrumented mockery on (baseline world, injected fault(s) at one configuration level, map-iteration policy); the single-fault matrix (class × variant × every level where the setting is consulted × policy) is enumerated completely per baseline world, pairs of different classes are seeded; non-trivial = the world has ≥2 output files; distinct = hash(fault labels, order-decision vector, tree digest)",
 		"fault_matrix":         cl,
 		"single_fault_cases":   single,
 		"pair_cases":           len(specs) - single - nCorrupt,
